@@ -207,7 +207,7 @@ func c03Tree(r *RNG) (map[string]string, string) {
 			for k := r.Intn(3); k > 0; k-- {
 				fmt.Fprintf(&sb, "import %s\n", Pick(r, []string{`"a"`, `"b"`, `"c"`, `"a/sub"`, `"fmt"`, `"nosuch/none"`, `x "a"`, `"`, `5`, `""`, `"../a"`, `( "a"; "b" )`, `( x "\400" )`, `"\400"`, `y "\777"`}))
 			}
-			sb.WriteString(Pick(r, []string{"func F() int {\n\treturn 1\n}\n", "var V = 3\n", "func init() {\n\tprintln(\"init\")\n}\n", "type T struct {\n\tA int\n}\n", "func (", "}", "", "func F() int { }\nvar W = F()\n"}))
+			sb.WriteString(Pick(r, []string{"func F() int {\n\treturn 1\n}\n", "var V = 3\n", "func init() {\n\tprintln(\"init\")\n}\n", "type T struct {\n\tA int\n}\n", "func (", "}", "", "func F() int { }\nvar W = F()\n", "42\n", "var V = 3\nV + 1\n", "func F() (int, int) {\n\treturn 1, 2\n}\nF()\n\"s\"\n"}))
 			full := name
 			if p != "" {
 				full = p + "/" + name
@@ -358,11 +358,14 @@ func runC03(c *Ctx) error {
 		{"operator chain", "x := 1", " + 1", "", "", 400000}, {"selector chain", "type T struct { n *T }\nt := &T{}\nx := t", ".n", "", "", 300000},
 		{"index chain", "x := []int{1}\ny := x", "[0", "", "]", 500000}, {"calls", "func f(a int) int { return a }\nx := ", "f(", "1", ")", 500000},
 		{"if blocks", "func f() {", "if true {", "", "}", 300000}, {"slice literals", "x := ", "[]any{", "1", "}", 300000},
-		{"function literals", "x := ", "func() int { return ", "1", " }()", 200000}, {"not", "x := ", "!", "true", "", 2000000},
+		{"function literals", "x := ", "func() int { return ", "1", " }()", 200000}, {"not", "x := ", "!", "true", "", 6000000},
+		{"complement", "x := ", "^", "1", "", 6000000}, {"minus", "x := ", "- ", "1", "", 3000000},
+		{"pointer type", "var x ", "*", "int", "", 6000000}, {"slice type", "var x ", "[]", "int", "", 3000000},
+		{"map type", "var x ", "map[int]", "int", "", 1000000}, {"struct type", "type T ", "struct { a ", "int", " }", 300000},
 	}
 	for _, d := range deep {
-		if !c.Thorough() && d.n > 500000 {
-			d.n = 500000
+		if !c.Thorough() && d.n > 500000 && len(d.open)+len(d.close) > 3 {
+			d.n = 500000 // the long shapes; one- and two-character shapes keep millions of levels (a few MB of source)
 		}
 		for _, o := range []int{0, 3} {
 			if o == 3 && d.n > 9000 {
